@@ -25,6 +25,8 @@ VM_ENGINES = [vm("ops", 16000, 320000), vm("structured", 16000, 320000), vm("raw
 VM_ZEROLEN = vm("zerolen", 3200, 64000)
 # a counting loop delivered as eWASM constructor / eWASM contract call / EVM init code through DeliverTx (C17 wasm_work_is_metered)
 WASM = chain("wasm", 16, 160, ops=4)
+# a contract returning BLOCKHASH(NUMBER - k) called on the real chain at several heights and again after an export / re-import (C16, C20)
+BLOCKHASH = chain("blockhash", 16, 160, ops=4)
 VM_ASSUME = ["outside the Lean interpreter model (cases reaching them are skipped by the comparison, monitors still run): native/precompile addresses (<= 0xff), any use of an address destroyed earlier in the same transaction, call / constructor nesting deeper than 8",
              "CREATE and CREATE2 are inside the model; the address CREATE derives (SHA-256 of creator, transaction nonce and the CVM's sequence counter; no SHA-256 in the Lean base) is an input of the model: the harness reconstructs the table (creator, sequence number) -> address from the interpreter's call events, the driver checks that it is a one-to-one function, and a model run that asks for an entry the interpreter did not derive is reported as a difference; the CREATE2 address (Keccak-256) is computed by the model",
              "the VM engine's state gives every account the CreateContract permission (Burrow's default global permissions) and has no contract metadata (InitChildCode's code-hash whitelist is empty); the transaction nonce option of the CVM is empty",
@@ -86,7 +88,7 @@ PROPS = {
     },
     "C20": {
         "lean": ["Shentu.Props.C20", "Shentu.Props.C20order", "Shentu.Props.C20G", "Shentu.Props.C20GCert", "Shentu.Props.C20GGov"],
-        "engines": [chain("export", 96, 960, ops=100, tops=200)],
+        "engines": [chain("export", 96, 960, ops=100, tops=200), BLOCKHASH],
         "trusted": SDK_TRUST + ["the comparison of the original and the imported node is made by the harness on the modules' exported genesis JSON and the harness's observations (bank, vesting, oracle, shield, gov, cert, cvm, staking, distribution); SDK modules without observers (slashing, mint, upgrade, evidence, ibc, crisis) are compared through the re-export only"],
         "assumptions": ["Tendermint's convention: the state exported after block H is imported as the start of block H+1; height-indexed oracle deadlines move by that one block, and a task that was pending at the export is then aggregated one block later (its outcome may differ through what happens in that block: only collateral and withdrawals are compared for such histories)",
                         "an address whose balance is zero is exported by the SDK bank module with an empty coin list and not stored on import: treated as equal",
@@ -94,8 +96,8 @@ PROPS = {
     },
     "C16": {
         "lean": ["Shentu.Props.C16"],
-        "drivers": ["vmdriver"],
-        "engines": VM_ENGINES + [VM_ZEROLEN],
+        "drivers": ["vmdriver", "chaindriver"],
+        "engines": VM_ENGINES + [VM_ZEROLEN, BLOCKHASH],
         "trusted": VM_TRUST + ["Shentu.Gen.EVM is regenerated from vm/contract.go by the translator; the refinement theorems are stated about the regenerated definitions"],
         "assumptions": VM_ASSUME + ["the specification side of the comparison is the interpreter model with every recorded deviation switched off (Quirks.spec); gas, GAS/GASLIMIT-dependent programs and out-of-gas runs are not compared (gas accounting may differ)"],
     },
